@@ -179,8 +179,9 @@ def trunc_grid(maxval, maxlen, cutgrid, maxbonds, renorms):
 def snap_tols(dtype):
     """(atol, rtol) of the projection onto the integer lattice.  Relative part small enough that
     sums of squares of a few hundred still have an unambiguous nearest integer."""
-    # double: a Gram-matrix based SVD returns exact zeros as ~sqrt(eps) * s_max ~ 1e-7 ("some loss of precision")
-    return (1e-3, 1e-4) if str(np.dtype(dtype)) in SINGLE else (1e-5, 1e-7)
+    # a Gram-matrix based SVD returns exact zeros as ~sqrt(eps) * s_max ("some loss of precision"):
+    # ~1e-7 in double, a few 1e-3 in single (seen once svd:eig accepts single precision on the accelerated path)
+    return (1e-2, 1e-4) if str(np.dtype(dtype)) in SINGLE else (1e-5, 1e-7)
 
 
 def _snap(x, dtype):
